@@ -136,6 +136,21 @@ func Block(fields []HF) []byte {
 	return b
 }
 
+// BlockRep is Block with the literal representation chosen per field: rep(i) is 0x00 (literal without indexing) or 0x10 (literal never
+// indexed, RFC 7541 6.2.3 - what a client uses for values it does not want intermediaries to put into compression contexts).  Both
+// decode to the same header list.
+func BlockRep(fields []HF, rep func(i int) byte) []byte {
+	var b []byte
+	for i, f := range fields {
+		b = append(b, rep(i))
+		b = append(b, hpackInt(7, 0, len(f.Name))...)
+		b = append(b, f.Name...)
+		b = append(b, hpackInt(7, 0, len(f.Value))...)
+		b = append(b, f.Value...)
+	}
+	return b
+}
+
 // Enc is a small stateful HPACK encoder of the kind real clients use: exact matches of the static or dynamic table are sent as
 // indexed fields, everything else as a literal with incremental indexing (name taken from a table when it is there).  One Enc per
 // connection; the server's decoder has to keep its dynamic table in step or later requests decode to other headers.
